@@ -31,7 +31,8 @@ TRUSTED = [
 ]
 
 IMPORTS = "From Aelys Require Import Model.Modules Model.ModulesObs.\nLocal Open Scope N_scope."
-CODES = {0: "ok", 1: "circular", 2: "module-not-found", 3: "symbol-not-found", 4: "symbol-conflict", 9: "other-error", 10: "panic"}
+CODES = {0: "ok", 1: "circular", 2: "module-not-found", 3: "symbol-not-found", 4: "symbol-conflict", 5: "compile-error",
+         6: "runtime-error", 9: "other-error", 10: "panic"}
 
 
 # ------------------------------------------------------------------------------------------ tree text
@@ -48,8 +49,10 @@ def parse_tree(text):
         elif w[0] == "entry":
             t["entry"] = w[1]
         elif w[0] == "file":
-            cur = {"imports": [], "defs": []}
+            cur = {"imports": [], "defs": [], "fault": 0}
             t["files"][w[1]] = cur
+        elif w[0] == "fault":
+            cur["fault"] = int(w[1])
         elif w[0] == "import":
             path = w[2].split(".")
             extra = None
@@ -239,6 +242,10 @@ def analyse(t):
                 want = [sym]
             if any(s not in pubs(t, tgt) for s in want):
                 a["defects"].add(3)
+            if t["files"][tgt].get("fault") == 1:
+                a["defects"].add(5)       # its body does not compile
+            elif t["files"][tgt].get("fault") == 2:
+                a["defects"].add(6)       # its top level raises
             if tgt not in seen:
                 seen.add(tgt)
                 todo.append(tgt)
@@ -414,32 +421,40 @@ def parse_sraw(raw):
         code, _, tags = part.partition(":")
         inputs.append((int(code), [x for x in tags.split(",") if x]))
     probes = [[v for v in p.split("|") if v] for p in d["probes"].split(",")]
-    return inputs, probes
+    bumps = [[tuple(b.split("=", 1)) for b in part.split(",") if b] for part in d.get("bumps", "").split("#")]
+    return inputs, probes, bumps
 
 
-def session_oracle(t, inputs_obs, probes):
+def session_oracle(t, inputs_obs, probes, bumps=None):
     """REPL session: inputs run one after the other on one VM, from the tree's root directory.
-    Each module initialises once per SESSION; names imported by earlier inputs stay usable."""
+    Each module's top level runs TO COMPLETION at most once per session -- also when inputs in
+    between fail (missing module, module that does not compile or raises, cycle, ...); a module whose
+    top level raised is not initialised and may run again; names imported by earlier ACCEPTED inputs
+    stay usable.  In plain trees (no symlinks, no manifest) every module has a private counter advanced by its own pub
+    function; each accepted input calls it through the qualifier it imported: the values count up through the session."""
     out = []
+    counters = collections.Counter()
+    stateful = not t["links"] and not t["hints"]
 
     def fail(sig, what):
         out.append((sig, what))
 
-    # every input is a file-less module at the root
     tt = dict(t)
     tt["files"] = collections.OrderedDict(t["files"])
     for k, inp in enumerate(t["inputs"]):
-        tt["files"]["in%d" % k] = {"imports": inp["imports"], "defs": []}
-    done, shared = [], set()
+        tt["files"]["in%d" % k] = {"imports": inp["imports"], "defs": [], "fault": 0}
+    raises = {f for f, m in t["files"].items() if m.get("fault") == 2}
+    done, shared, accepted = [], set(), []
     for k, (code, tags) in enumerate(inputs_obs):
         me = "in%d" % k
         tt["entry"] = me
         a = analyse(tt)
         shared |= a["shared_names"]
         for f in tags:
-            if f in done:
-                fail("session-double-init", f"{f} initialised again by input {k} of the session (first by an earlier input)")
-        if len(set(tags)) != len(tags):
+            if f in done and f not in raises:
+                fail("session-double-init", f"{f} initialised again by input {k} of the session (its top level had completed during an earlier input)")
+        solid = [f for f in tags if f not in raises]
+        if len(set(solid)) != len(solid):
             fail("double-init", f"input {k}: a top level ran twice: {tags}")
         allowed = set(a["defects"]) | set(a["possible"])
         if not a["defects"]:
@@ -450,9 +465,21 @@ def session_oracle(t, inputs_obs, probes):
             else:
                 fail("unexpected-outcome", f"input {k}: outcome {CODES.get(code, code)} but only {sorted(CODES[c] for c in allowed)} allowed")
         if code == 0:
-            want = [f for f in a["reach"] if f not in done]
-            for f in want:
-                if f not in tags:
+            accepted.append(k)
+            if stateful and bumps is not None:
+                exp = []
+                for imp in t["inputs"][k]["imports"]:
+                    f = "/".join(imp["path"])
+                    if imp["form"] in ("module", "alias") and f in t["files"] and not t["files"][f].get("fault"):
+                        counters[f] += 1
+                        exp.append((f, str(counters[f])))
+                got = bumps[k] if k < len(bumps) else []
+                if got != exp:
+                    low = any(g[0] == e[0] and g[1].isdigit() and int(g[1]) < int(e[1]) for g, e in zip(got, exp))
+                    fail("session-state-reset" if low else "session-state-wrong",
+                         f"input {k}: the modules' counters read {got}, the calls made in this session so far give {exp}")
+            for f in a["reach"]:
+                if f not in done and f not in tags:
                     fail("missing-init", f"input {k}: {f} is imported, was never initialised in this session, and did not run")
             pos = {f: i for i, f in enumerate(tags)}
             for f in a["reach"]:
@@ -461,17 +488,18 @@ def session_oracle(t, inputs_obs, probes):
                         fail("order", f"input {k}: {f} ran before its dependency {g}")
             if tags and tags[-1] != me:
                 fail("order", f"input {k}: the input's own top level did not run last")
+        elif me in tags:
+            fail("order", f"input {k}: the input's top level ran although its imports failed")
         for f in tags:
             if f not in a["reach"]:
                 fail("init-of-unreachable", f"input {k}: {f} ran but is not imported")
-        done += [f for f in tags if f not in done]
-    # names: the grants of all inputs so far
-    nok = len([1 for code, _ in inputs_obs if code == 0])
+        done += [f for f in tags if f not in done and f not in raises]
+    # names: the grants of all ACCEPTED inputs so far
     for (k, sp), vals in zip(t["sprobes"], probes):
-        if k >= nok:
+        if k >= len(inputs_obs) or inputs_obs[k][0] != 0:
             continue
         want = set()
-        for j in range(k + 1):
+        for j in [j for j in accepted if j <= k]:
             want |= grants(tt, "in%d" % j).get(sp, set())
         if len(want) > 1:
             continue
@@ -535,14 +563,18 @@ def check_sessions(ctx, rows, prof, origin, stats):
     per_sig = collections.Counter()
     for r, gr in zip(rows, gres):
         t = parse_tree(r[2])
-        inputs_obs, probes = parse_sraw(r[3])
+        inputs_obs, probes, bumps = parse_sraw(r[3])
+        stats["counter_reads"] += sum(len(b) for b in bumps)
         probes = probes[:len(t["sprobes"])] if t["sprobes"] else []
         stats["runs"] += (1 + len(t["sprobes"])) * len(t["inputs"])
         stats["sessions"] += 1
         stats["session_inputs"][len(t["inputs"])] += 1
-        stats["session_outcomes"][CODES.get(inputs_obs[-1][0], str(inputs_obs[-1][0]))] += 1
+        for code_k, _ in inputs_obs:
+            stats["session_outcomes"][CODES.get(code_k, str(code_k))] += 1
+        if any(c_ != 0 for c_, _ in inputs_obs[:-1]):
+            stats["sessions_continuing_after_a_failed_input"] += 1
         stats["distinct"].add(r[2].split(";", 1)[1])
-        for sig, what in session_oracle(t, inputs_obs, probes):
+        for sig, what in session_oracle(t, inputs_obs, probes, bumps):
             if gr is not None and "true" in gr and sig.startswith("ns:same-global-name"):
                 sig = "guarded-tree:" + sig
             per_sig[sig] += 1
@@ -647,6 +679,7 @@ def run(ctx):
     profiles = ["dev"] if ctx.tier == "quick" else ["dev", "release"]
     stats = {"runs": 0, "codes": collections.Counter(), "labels": collections.Counter(), "distinct": set(),
              "oracle_failures": collections.Counter(), "guards": collections.Counter(), "sessions": 0,
+             "sessions_continuing_after_a_failed_input": 0, "counter_reads": 0,
              "session_inputs": collections.Counter(), "session_outcomes": collections.Counter(), "opt_levels": collections.Counter(),
              "forms": collections.Counter(), "spellings": collections.Counter(), "sizes": collections.Counter(),
              "features": collections.Counter(), "ns_class": 0, "nested": 0, "cyclic": 0}
@@ -689,7 +722,9 @@ def run(ctx):
         "trees_with_a_global_name_defined_twice": stats["ns_class"],
         "value_guards(unique_defs,quals_ok_b)": {str(k): v for k, v in stats["guards"].items()},
         "repl_sessions": stats["sessions"], "repl_inputs_per_session": dict(stats["session_inputs"]),
-        "repl_last_outcome": dict(stats["session_outcomes"]),
+        "repl_input_outcomes": dict(stats["session_outcomes"]),
+        "repl_sessions_continuing_after_a_failed_input": stats["sessions_continuing_after_a_failed_input"],
+        "repl_reads_of_a_module's_mutable_counter": stats["counter_reads"],
         "entry_opt_levels": dict(stats["opt_levels"]), "import_statements_by_form": dict(stats["forms"]),
         "files_per_tree": dict(sorted(stats["sizes"].items())), "spelling_features": dict(stats["spellings"]),
         "model_features_reached(reachable imports)": dict(sorted(stats["features"].items())),
